@@ -1095,7 +1095,8 @@ LABEL:
 					panic(syntaxError(tok.pos, "unexpected %s, expecting semicolon or newline or )", tok))
 				}
 				if c, ok := prevNode.(*ast.Const); ok {
-					if c.Type == nil {
+					// The type is repeated only together with the expression list.
+					if c.Type == nil && len(c.Rhs) == 0 {
 						c.Type = astutil.CloneExpression(prevConstType)
 					}
 					if len(c.Rhs) == 0 {
